@@ -208,6 +208,23 @@ theorem element_moves_keep_one_owner (cfg : Cfg) (w : World) (ms : RefineMulti.M
       (World.step cfg (.remove v i (.pushTo u)) w).2.notUb :=
   RefineMulti.move_refines cfg w ms h v u i hvu a au hv hu
 
+/-- **two elements swapped between two vectors still have one owner each, and no destructor runs**: in any world that
+shows an abstract state of all its vectors, `swap(v.at_mut(i), u.at_mut(j))` leads to a world that shows the two
+identities exchanged (or, on a panic, the same state) - and in that state no identity occurs twice among all the
+vectors, none of them has been destroyed, and the log of destructor runs is as it was: a swap never duplicates, leaks or
+destroys an element. -/
+theorem element_swaps_keep_one_owner (cfg : Cfg) (w : World) (ms : RefineMulti.MSpec) (h : RefineMulti.MRel w ms)
+    (v u i j : Nat) (hvu : v ≠ u) (a au : RefineMulti.AVec)
+    (hv : ms.vecs[v]? = some (some a)) (hu : ms.vecs[u]? = some (some au)) :
+    ∃ ms', RefineMulti.SwapStep ms v u i j a au ms' ∧
+      RefineMulti.MRel (World.step cfg (.eswap v i u j) w).1 ms' ∧
+      ms'.allItems.Nodup ∧ (∀ id ∈ ms'.allItems, id ∉ (World.step cfg (.eswap v i u j) w).1.dropLog) ∧
+      ms'.next = ms.next := by
+  obtain ⟨ms', hs, hrel, _⟩ := RefineMulti.eswap_refines cfg w ms h v u i j hvu a au hv hu
+  obtain ⟨hnd, _, hdl, _⟩ := RefineMulti.mrel_unique _ ms' hrel
+  refine ⟨ms', hs, hrel, hnd, hdl, ?_⟩
+  cases hs <;> rfl
+
 /-- **dropping a vector destroys each of its items exactly once, and nothing else**: in any world that shows an abstract
 state of all its vectors, dropping a live vector that shows the items `a.items` appends exactly these identities, in order,
 to the log of destructor runs, turns its component into `none`, and leaves every other vector as it was. -/
